@@ -97,9 +97,8 @@ Definition direct_post2 n (x : fvec) (perm : option (seq nat)) : fmx :=
 
 (* _steadystate_eigen: rho / rho.tr()          -> (numerator, denominator) *)
 Definition eigen_post n (v : fvec) := let V := unstack n v in (V, ftr n V).
-(* _steadystate_svd: Qobj(rho, isherm=True); rho / rho.tr(): Qobj.tr() of an
-   operator flagged Hermitian returns only the real part of the trace *)
-Definition svd_post n (v : fvec) := let V := unstack n v in (V, re (ftr n V)).
+(* _steadystate_svd: Qobj(rho) (no Hermiticity flag forced); rho / rho.tr() *)
+Definition svd_post n (v : fvec) := let V := unstack n v in (V, ftr n V).
 (* _steadystate_power: rho + rho.dag(); / tr *)
 Definition power_post n (y : fvec) :=
   let S := herm2 (unstack n y) in (S, ftr n S).
@@ -126,7 +125,7 @@ End Exec.
 (* ---- _steadystate_power: the iteration counter --------------------------
      it = 0
      while it < maxiter and norm(L @ y) > tol:  y = solve(L, y); it += 1
-     if it >= maxiter: raise Exception('Failed to find steady state ...')
+     if it >= maxiter and norm(L @ y) > tol: raise Exception('Failed ...')
    conv k = "the residual test passes after k solves". *)
 Fixpoint power_loop (fuel maxiter it : nat) (conv : nat -> bool) : nat :=
   match fuel with
@@ -136,7 +135,7 @@ Fixpoint power_loop (fuel maxiter it : nat) (conv : nat -> bool) : nat :=
   end.
 Definition power_result (maxiter : nat) (conv : nat -> bool) : option nat :=
   let it := power_loop maxiter maxiter 0 conv in
-  if maxiter <= it then None else Some it.
+  if (maxiter <= it) && ~~ conv it then None else Some it.
 
 (* ---- execution instance: Gaussian integers ------------------------------- *)
 Definition GZ := (Z * Z)%type.
@@ -163,7 +162,7 @@ Definition gz_direct_post2 n x perm :=
 Definition gz_eigen_post n v :=
   let (V, d) := eigen_post gz0 gzadd n (of_list v) in (tab_mx n n V, d).
 Definition gz_svd_post n v :=
-  let (V, d) := svd_post gz0 gzadd gzre n (of_list v) in (tab_mx n n V, d).
+  let (V, d) := svd_post gz0 gzadd n (of_list v) in (tab_mx n n V, d).
 Definition gz_power_post n v :=
   let (V, d) := power_post gz0 gzadd gzcj n (of_list v) in (tab_mx n n V, d).
 Definition gz_pinv_R n rho LIQ :=
